@@ -8,7 +8,8 @@ THEOREMS = ["Mesa.Devs." + t for t in (
     "C15_chunking", "C15_fuel_irrelevant", "C15_abm_steps_eq_clock", "C15_step_once_per_tick",
     "C15_step_always_armed", "C15_step_before_lower_priority", "C15_abm_steps_track_clock",
     "C15_interrupted_run_resumed", "C15_normal_run_is_uninterrupted_run", "C15_chunking_with_exceptions",
-    "C15_abm_steps_eq_clock_after_resume")]
+    "C15_abm_steps_eq_clock_after_resume", "C15_uninterrupted_run_is_resumed_run", "C15_uninterrupted_run_fuel_irrelevant",
+    "C15_resumed_in_pieces_eq_resumed_in_one_piece", "C15_chunking_with_exceptions_progress")]
 COUNTS = {"quick": 500, "thorough": 150000}
 TRUSTED = [
     "CPython heapq pop-min; refcount weakref death; exact dyadic time arithmetic (see C14)",
